@@ -125,6 +125,13 @@ Theorem C09_to_facets_nodes : forall (V : Type) (m : mesh V) facets,
   nodes (to_facets m facets) = nodes m /\ nodal (to_facets m facets) = nodal m.
 Proof. intros V. exact (@to_facets_nodes V). Qed.
 
+(* functions.remove_duplicates (to_facets): one facet per distinct node set *)
+Theorem C09_remove_duplicates : forall rows,
+  (forall r, In r rows -> exists r', In r' (remove_duplicates rows) /\ sort_row r' = sort_row r) /\
+  (forall r', In r' (remove_duplicates rows) -> In r' rows) /\
+  NoDup (map sort_row (remove_duplicates rows)).
+Proof. exact remove_duplicates_spec. Qed.
+
 (* the positional code paths attach values to other ids *)
 Theorem C09_remove_useless_nodes_refuted : forall c, useless_by_id c = false ->
   wf_mesh m_ref = true /\
